@@ -17,9 +17,13 @@ type ColAuto struct {
 // Infer and initialize Column from ColumnType.
 func (c *ColAuto) Infer(t ColumnType) error {
 	if c.Data != nil && !c.Type().Conflicts(t) {
-		// Already ok.
-		c.DataType = t // update subtype if needed
-		return nil
+		// Already ok, but the column still has to adopt parameters of t
+		// (enum values, precision, location); infer again if it can't.
+		v, ok := c.Data.(Inferable)
+		if !ok || v.Infer(t) == nil {
+			c.DataType = t // update subtype if needed
+			return nil
+		}
 	}
 	if v := inferGenerated(t); v != nil {
 		c.Data = v
